@@ -37,7 +37,15 @@ def h_fetch(eng, case):
     seen = []
     lost_log = []
 
+    vary = {}
+
     def final_id(i):
+        if marker == 'vary':
+            # every segment carries its own announcement: none, itself, a later segment, one beyond the object
+            if i not in vary:
+                vary[i] = eng.choice(4, 'fbi%d' % i)
+            return [None, bytes(Component.from_segment(i)), bytes(Component.from_segment(i + 1)),
+                    bytes(Component.from_segment(N + 3))][vary[i]]
         if marker is None:
             return None
         if marker == 'nonseg':
@@ -322,7 +330,8 @@ def cases(tier, seed):
     for retry in (1, 2, 3):
         cs.append(('fetch', {'N': None, 'retry': retry, 'marker': None}))
         for N in range(0, mx + 1):
-            markers = [None, 'last', 'nonseg'] + ([0] if N > 1 else []) + ([N - 2] if N > 2 else [])
+            markers = [None, 'last', 'nonseg'] + ([0] if N > 1 else []) + ([N - 2] if N > 2 else []) + \
+                (['vary'] if 1 <= N <= 3 and retry <= 2 else [])
             for m in markers:
                 if N == 0 and m is not None:
                     continue
